@@ -159,7 +159,7 @@ def build_model():
         if r.returncode != 0:
             return None, "extraction failed:\n" + r.stdout
         r = run(["ocamlfind", "ocamlopt", "-package", "zarith", "-linkpkg", "-w", "-a",
-                 "model.mli", "model.ml", "driver.ml", "-o", os.path.join(BUILD, "modeldrv")], cwd=EXTRACT)
+                 "model.mli", "model.ml", "common.ml", "drivers.ml", "world.ml", "main.ml", "-o", os.path.join(BUILD, "modeldrv")], cwd=EXTRACT)
         if r.returncode != 0:
             return None, "ocaml build failed:\n" + r.stdout
     return os.path.join(BUILD, "modeldrv"), ""
